@@ -128,9 +128,11 @@ func C10_reject() {
 			sym.Assert(l.field != name, "undefined field never reaches a resolver")
 		}
 		if c.offender == 2 {
+			leaked := false
 			for _, a := range l.args {
-				sym.Assert(a != name, "undeclared argument never reaches a resolver")
+				leaked = sym.Or(leaked, a == name)
 			}
+			sym.Assert(!leaked, "undeclared argument never reaches a resolver")
 		}
 		if c.forbid != "" {
 			sym.Assert(l.field != c.forbid, "the offending selection's resolver is not invoked")
